@@ -277,7 +277,7 @@ def r1(chk, ctx, p, se):
         ap = [c for c in calls if callname(c) == "apply_path"]
         ok = len(rp) == 1 and len(ap) == 1 and [norm(a) for a in rp[0].args[:2]] == ["data", "result"] and "state.get('ResultPath', '$')" in norm(rp[0]) and \
             isinstance(ap[0].args[0], ast.Name) and any(isinstance(d, ast.Assign) and d.value is rp[0] for d in name_defs(mr, ap[0].args[0].id)) and \
-            isinstance(se.parent(ap[0]), ast.Return) and "OutputPath" in " ".join(txt)
+            isinstance(se.parent(ap[0]), ast.Return) and "state.get('OutputPath', '$')" in " ".join(txt) and "state.get('OutputPath') or" not in " ".join(txt)
     chk.ob("C01.R1", "merge_result = ResultPath placement, then OutputPath on the placed document", ok, "", key="merge_result | ResultPath then OutputPath", where=mr.where(), message="")
 
 
@@ -316,6 +316,9 @@ def r2(chk, ctx, p, se):
     c14.r6(chk, ctx, handlers)
     c05.r1(chk, ctx, p, se)
     c07.r1(chk, ctx, p, se)   # which errors are 'unhandled' is decided by the retry/catch scan
+    c07.r4(chk, ctx, p, se)   # a leaked retry counter changes how often an inner state is retried, hence the outcome
+    from . import c08
+    c08.r1(chk, ctx)          # Choice timestamp rules compare the instants this parser yields
     c07.r3(chk, ctx, p, se)
 
 
